@@ -12,6 +12,71 @@ RULE = ('H-MIXED closure to depth D under all 24 mergeable classes (incl. roRepl
         'gives the same (document, exception, warnings) on the live object as on the re-read serialisation.')
 
 
+def file_history_worker(ns, items, res, opts):
+    """roCreate / roStorySend / roStoryAppend / roMetadataReplace / roReplace / roDelete read with from_file from
+    files that hold comments, processing instructions and special characters: after every step the
+    running order must serialise to a document that reads back identically - through from_string AND
+    through from_file."""
+    import os, shutil, tempfile, warnings
+    from .. import gen, explore, tree
+    prop = opts['prop']
+    d = tempfile.mkdtemp(prefix='mosmc-c14-')
+    try:
+        def spice(text):
+            # comments / PIs inside the message element, inside a story and between root children
+            text = text.replace('<roID>', '<!-- a comment --><?pi data?><roID>', 1)
+            text = text.replace('<storySlug>', '<!-- in a story --><storySlug>', 1)
+            return text.replace('</mos>', '<!-- trailing --></mos>')
+        for seq in items:
+            msgs = {
+                'create': gen.ro_text([gen.story_xml('A', 0, rich=True, body=(('p', 'unicode'), ('i', 'a'))), gen.story_xml('AB', 0)], 'between', gen.meta_elems(3)),
+                'send': gen.msg_story_send('A', rich=True, body=(('p', 'unicode'), ('i', 'e')), msg_id=2001),
+                'append': gen.msg_story_append([gen.story_xml('C', 0, rich=True)], msg_id=2002),
+                'meta': gen.msg_metadata_replace(['<roSlug>new &amp; slug</roSlug>'], msg_id=2003),
+                'replace': gen.msg_ro_replace([gen.story_xml('D', 1, rich=True)], 'after', gen.meta_elems(2, variant=1), msg_id=2004),
+                'delete': gen.msg_ro_delete(msg_id=2005),
+            }
+            paths = {}
+            for k, t in msgs.items():
+                paths[k] = os.path.join(d, k + '.mos.xml')
+                with open(paths[k], 'w', encoding='utf-8') as f:
+                    f.write(spice(t))
+            ro = ns.mt.MosFile.from_file(paths['create'])
+            history = ['create']
+            for step in ('',) + tuple(seq):
+                if step:
+                    with warnings.catch_warnings():
+                        warnings.simplefilter('ignore')
+                        try:
+                            ro += ns.mt.MosFile.from_file(paths[step])
+                        except ns.exc.MosMergeError:
+                            pass
+                    history.append(step)
+                res.transitions += 1
+                res.nontrivial += 1
+                res.extra['states'] += 1
+                res.extra['file_history_states'] += 1
+                res.by_outcome['file-history'] += 1
+                s1 = str(ro)
+                out = os.path.join(d, 'state.xml')
+                with open(out, 'w', encoding='utf-8') as f:
+                    f.write(s1)
+                for how, fn in (('from_string', lambda: ns.mt.MosFile.from_string(s1)), ('from_file', lambda: ns.mt.MosFile.from_file(out))):
+                    try:
+                        back = fn()
+                        s2 = str(back)
+                        ok = s2 == s1 and type(back).__name__ == 'RunningOrder' and bool(back.completed) == bool(ro.completed)
+                    except Exception as e:  # noqa
+                        ok, s2 = False, f'{type(e).__name__}: {e}'
+                    if not ok:
+                        explore.add_simple_finding(res, prop, f'FILE-HISTORY:{how}:not-identical-after:{history[-1]}',
+                                                   f'history {history} read with from_file: the serialisation does not read back identically through {how}',
+                                                   history=history, serialisation=s1[:600], read_back=str(s2)[:600])
+                        break
+    finally:
+        shutil.rmtree(d, ignore_errors=True)
+
+
 def vacuity(by_kind, by_outcome, extra, by_class):
     probs = [f'message class {k} never exercised' for k in spec.ALL_KINDS if not by_kind.get(k)]
     for k in ('states_round_tripped', 'bisimulation_steps'):
@@ -47,8 +112,15 @@ def run(tier):
     parts.append({'label': 'pretty-printed-running-orders', 'harness': HStory(pool=4, cap=3, max_list=1, rich=True, pretty_states=True, pretty_msgs=True,
                                                                                layouts=('between',)), 'monitors': [RoundTrip()], 'opts': {'max_depth': 1}})
     parts.append({'label': 'other-envelope', 'harness': HMixed(envelope='trailing', init_shapes=[('A', 'AB'), ('AB', 'A', 'C')], layouts=('before',), max_list=1, story_L=1, meta_subsets=1, rich=True), 'monitors': [RoundTrip(bis, per_kind=2)], 'opts': {'max_depth': 0}})
+    import itertools
+    steps = ('send', 'append', 'meta', 'replace', 'delete')
+    seqs = [p for n in range(0, (3 if tier == 'quick' else 5) + 1) for p in itertools.permutations(steps, n)]
+    enum_parts = [{'label': 'histories-read-with-from_file', 'worker': file_history_worker, 'items': seqs, 'chunk': 10}]
     return runner.graph_check(
-        'C14', tier, parts, rule=RULE, vacuity=vacuity,
+        'C14', tier, parts, rule=RULE + ' Plus: every history of up to 3 (thorough 5) messages over {roStorySend, roStoryAppend, '
+        'roMetadataReplace, roReplace, roDelete} read with from_file from files holding comments and processing instructions: '
+        'after every step the serialisation reads back identically through from_string and through from_file.',
+        vacuity=vacuity, enum_parts=enum_parts,
         assumptions=['all messages are addressed to the running order\'s own roID',
                      'U+000D in text is outside the alphabet (xml.etree writes it raw and every reader normalises it)',
                      'soundness of text-canonicalised states rests on the bisimulation check reported here'])
